@@ -325,7 +325,7 @@ def gen_repro(rng, tier):
     """small 2-D and 3-D cases of each of the five commands; every op carries its rank count"""
     ops = []
     nps = _np_list(tier)
-    rounds = 1 if tier == 'quick' else 4
+    rounds = 2 if tier == 'quick' else 5
     k = rng.randint(0, 100)
 
     def nxt():
